@@ -157,7 +157,7 @@ func valueOf(in ssa.Instruction) ssa.Value {
 // IsNone() of that value was false.
 func c08NoneIsInvalid(c *core.Check) {
 	p := c.Prog
-	r := c.Rule("R19", "none is invalid: in every validator of the validators table, a returned property made from a call result whose type has an IsNone method is dominated by the false side of IsNone() on that result (the zero value the helpers use for 'not recognised' must become nil, not a value)", 4)
+	r := c.Rule("R19", "none is invalid: in every validator of the validators table, a returned property made from a call result whose type has an IsNone method is dominated by the false side of IsNone() on that result (the zero value the helpers use for 'not recognised' must become nil, not a value)", 6)
 	tab, err := p.Table("css/validation", "validators")
 	if err != nil {
 		r.Anchor("css/validation.validators: " + err.Error())
